@@ -578,6 +578,39 @@ func (g *Gen) expand(pat string, v View) {
 			st = append(st, func(g *Gen, v View) (Action, bool) { return g.apiAction(v), true })
 		}
 		g.push("P18", st...)
+	case "P20": // C20: concurrent API workload while the schedule forces role changes, snapshots, membership changes, stop/start
+		var st []step
+		st = append(st, lit(Action{Op: "stress", K: rapid.IntRange(4, 32).Draw(t, "goroutines"), Sel: rapid.IntRange(5, 40).Draw(t, "calls"), Client: rapid.IntRange(1, 1<<20).Draw(t, "stressSeed")}))
+		n := rapid.IntRange(4, 14).Draw(t, "raceSteps")
+		for i := 0; i < n; i++ {
+			st = append(st, func(g *Gen, v View) (Action, bool) {
+				switch rapid.SampledFrom([]string{"leaderchange", "snap", "member", "stop", "restart", "advance", "advance", "api"}).Draw(g.T, "race") {
+				case "leaderchange":
+					if l := v.Leader(); l != "" {
+						g.queue = append([]step{advance(g.dur("iso", et, 2*et)), lit(Action{Op: "reconnect", Node: l, Mode: "deliver"})}, g.queue...)
+						return Action{Op: "isolate", Node: l, Mode: "drop"}, true
+					}
+				case "snap":
+					return Action{Op: "armsnap", Node: g.anyNode("sn")}, true
+				case "member":
+					ms := g.membershipSteps(v)
+					g.queue = append([]step{ms[1]}, g.queue...)
+					return ms[0](g, v)
+				case "stop":
+					if ids := g.running(v); len(ids) > 1 {
+						return Action{Op: "api", Kind: "stop", Node: g.pick("victim", ids)}, true
+					}
+				case "restart":
+					if ids := g.stoppedNodes(); len(ids) > 0 {
+						return Action{Op: "api", Kind: rapid.SampledFrom([]string{"restart", "start"}).Draw(g.T, "how"), Node: g.pick("rs", ids)}, true
+					}
+				case "api":
+					return g.apiAction(v), true
+				}
+				return Action{Op: "advance", DurUs: g.dur("raceAdv", 5000, hb, et/2, et)}, true
+			})
+		}
+		g.push("P20", st...)
 	case "P16": // C16: a strict minority (plus non-voters / removed nodes) misbehaves, the leader's majority stays prompt
 		g.push("P16", g.stickySteps(v)...)
 	case "P12": // figure 8: alternate partial replication between two nodes
